@@ -480,7 +480,15 @@ def expect_load(
                         Alt(("err", armed), "reload-failed", True, lambda: model.touch(key)))
                 return alts
             out = ("ok", now[1]) if now[0] == "ok" else ("err", now[1])
-            alts = [Alt(out, "hit-verified", False, lambda: model.touch(key))]
+            if now[0] == "ok" and (now[1] != e.source or now[2] != e.origin):
+                # the twin now answers from somewhere else (a file that shadows the entry's
+                # origin): a loader that returns this answer has re-read the source, so the
+                # entry it holds from now on is the new one (origin and stamp included)
+                moved = Entry(now[1], now[2], now[3], step)
+                alts = [Alt(out, "hit-verified", False,
+                            lambda: (model.put(key, moved), None)[1])]
+            else:
+                alts = [Alt(out, "hit-verified", False, lambda: model.touch(key))]
             if armed:
                 alts.append(Alt(("err", armed), "reload-failed", True, lambda: model.touch(key)))
             return alts
